@@ -166,6 +166,8 @@ pub open spec fn belongs_swap(a: Swap<'_>) -> bool {
     let w = a.whirlpool.data;
     &&& a.token_vault_a.k == w.token_vault_a && a.token_vault_b.k == w.token_vault_b
     &&& a.token_owner_account_a.data.mint == w.token_mint_a && a.token_owner_account_b.data.mint == w.token_mint_b
+    // the oracle account is the one derived from THIS pool's address ("oracle", pool)
+    &&& *a.oracle.k == crate::anchor_shim::pda_of(seq![crate::anchor_shim::Seed::Lit(0x6f7261636c65int), crate::anchor_shim::Seed::Key(a.whirlpool.k)])
 }
 pub open spec fn ta_keys3(a: Pubkey, b: Pubkey, c: Pubkey) -> Seq<Pubkey> { seq![a, b, c] }
 /// C03 (thresholds), C17 (the single swap that a two-hop leg must equal), C06 (what is moved): a successful swap instruction
